@@ -581,7 +581,14 @@ func (w *ewWorld) envDaemon(k string) {
 		case resp := <-ch:
 			ok = resp != nil && resp.Err == nil && len(resp.NetworkConfigs) > 0
 		case <-time.After(patience):
-			// not ready: nothing is sent before the context ends
+			// not ready: nothing is sent before the context ends.  End it and listen a little longer: whatever the
+			// daemon answers when its wait is cut short (the way its own deadline cuts it) counts as its answer too
+			cancel()
+			select {
+			case resp := <-ch:
+				ok = resp != nil && resp.Err == nil && len(resp.NetworkConfigs) > 0
+			case <-time.After(60 * time.Millisecond):
+			}
 		}
 	}
 	cancel()
